@@ -612,7 +612,9 @@ func DominatingIfs(cluster []*ssa.Function, in ssa.Instruction) (ifs []*ssa.If, 
 
 // SliceInter is Slice extended across the helpers of a cluster: when the slice
 // reaches a parameter of a cluster function, it continues at the corresponding
-// argument of every static call site of that function inside the cluster.
+// argument of every static call site of that function inside the cluster; when it
+// reaches the result of a call to a cluster function, it continues at the values
+// that function returns.
 func SliceInter(v ssa.Value, through func(c *ssa.Call) bool, cluster []*ssa.Function) map[ssa.Value]bool {
 	out := map[ssa.Value]bool{}
 	inCluster := map[*ssa.Function]bool{}
@@ -630,6 +632,27 @@ func SliceInter(v ssa.Value, through func(c *ssa.Call) bool, cluster []*ssa.Func
 				continue
 			}
 			out[x] = true
+			// results of a cluster helper: continue at what the helper returns
+			switch r := x.(type) {
+			case *ssa.Extract:
+				if call, ok := r.Tuple.(*ssa.Call); ok {
+					if cal := call.Call.StaticCallee(); cal != nil && inCluster[cal] {
+						for _, ret := range Returns(cal) {
+							if r.Index < len(ret.Results) {
+								work = append(work, ret.Results[r.Index])
+							}
+						}
+					}
+				}
+			case *ssa.Call:
+				if cal := r.Call.StaticCallee(); cal != nil && inCluster[cal] && cal.Signature.Results().Len() == 1 {
+					for _, ret := range Returns(cal) {
+						if len(ret.Results) == 1 {
+							work = append(work, ret.Results[0])
+						}
+					}
+				}
+			}
 			par, ok := x.(*ssa.Parameter)
 			if !ok || doneParam[par] || !inCluster[par.Parent()] {
 				continue
